@@ -318,4 +318,37 @@ def r6_assignment_does_not_leak_through_copies(ctx):
     r3_deepcopy_completeness(ctx)
 
 
-RULES = [r6_assignment_does_not_leak_through_copies, r1_arguments_refuse_unknown, r2_set_is_existence_checked, r3_single_resolution_rule, r4_validate_steps, r5_assignment_is_local]
+def r7_literal_conversion(ctx):
+    """eval_entry: a non-string is returned unchanged; a string is converted with ast.literal_eval only (never eval/exec); it is wrapped in quotes only inside the handler for a failed literal_eval and only when it is not already quoted; the value returned is literal_eval of that text."""
+    f = ctx.func("pyxel.evaluator:eval_entry")
+    v = f.params[0]
+    g = ctx.cfg(f)
+    bad = [c for c in calls_in(f.node) if call_name(c) in ("eval", "exec", "compile") or call_name(c).endswith(".eval")]
+    ctx.check(not bad, f.qual + "#no-eval", "no eval/exec on user text" if not bad else f"user text is passed to {call_name(bad[0])}", where=f, node=bad[0] if bad else f.node)
+    early = [r for r in returns_of(f) if r.value is not None and dotted(r.value) == v]
+    ok = any(any(pol and norm(t) == f"not isinstance({v}, str)" for t, pol in enclosing_tests(r)) for r in early)
+    ctx.check(ok, f.qual + "#non-str", "non-strings are returned unchanged" if ok else "non-string values are not returned unchanged", where=f, node=early[0] if early else f.node)
+    le = [c for c in calls_in(f.node) if call_name(c) in ("literal_eval", "ast.literal_eval") and c.args and dotted(c.args[0]) == v]
+    rets = [r for r in returns_of(f) if r.value is not None and r not in early]
+    ok = len(le) >= 2 and len(rets) == 1 and norm(expand(f, rets[0].value)) in (f"literal_eval({v})", f"ast.literal_eval({v})")
+    ctx.check(ok, f.qual + "#literal", "the result is literal_eval of the (possibly quoted) text" if ok else "the converted value is not literal_eval of the given text", where=f, node=rets[0] if rets else f.node)
+    # quoting only in the handler of the probing literal_eval
+    quotes = [s_ for s_, val in local_defs(f, v) if val is not None]
+    okq = bool(quotes)
+    from sa.index import ancestors as _anc
+
+    for s_ in quotes:
+        hs = [a for a in _anc(s_) if isinstance(a, ast.ExceptHandler)]
+        inh = bool(hs) and hs[0].type is not None and {"SyntaxError", "ValueError"} <= set(norm(hs[0].type).strip("()").replace(" ", "").split(","))
+        guarded = any(pol and any(isinstance(c, ast.Constant) and c.value in ("'", '"') for c in ast.walk(t)) for t, pol in enclosing_tests(s_))
+        val = [val for ss, val in local_defs(f, v) if ss is s_][0]
+        shape = norm(val) in (f"'\"' + {v} + '\"'", f'"\'" + {v} + "\'"', f"repr({v})")
+        okq = okq and inh and guarded and shape
+    ctx.check(okq, f.qual + "#quoting", "text is quoted only after literal_eval failed and only when not already quoted" if okq else "the text is rewritten outside the failed-literal fallback (a valid literal could change meaning)", where=f, node=quotes[0] if quotes else f.node)
+    st = ctx.func(f"{PROC}.set")
+    uses = [c for c in calls_in(st.node) if call_name(c) == "eval_entry"]
+    ok = len(uses) == 2
+    ctx.check(ok, st.qual + "#uses-eval-entry", "strings and sequence elements go through eval_entry" if ok else "Processor.set no longer converts through eval_entry", where=st, node=uses[0] if uses else st.node)
+
+
+RULES = [r7_literal_conversion, r6_assignment_does_not_leak_through_copies, r1_arguments_refuse_unknown, r2_set_is_existence_checked, r3_single_resolution_rule, r4_validate_steps, r5_assignment_is_local]
